@@ -185,25 +185,30 @@ def k3_run(lengths):
         try:
             for n in lengths:
                 bits = [z3.Bool("b%d" % i) for i in range(n)]
-                res, it = pysym.run_function(U.pack_bitstring, [list(bits)], "bv", W)
                 exp = []
                 for j in range(0, n, 8):
                     v = z3.BitVecVal(0, W)
                     for k, b in enumerate(bits[j:j + 8]):
                         v = v + z3.If(b, z3.BitVecVal(1 << k, W), z3.BitVecVal(0, W))
                     exp.append(v)
-                if len(res) != len(exp):
-                    ok = False
-                    cex = cex or {"fn": "pack_bitstring", "bits": [True] * n}
-                    continue
-                claim = z3.And(*[(r if pysym.is_z(r) else z3.BitVecVal(r, W)) == e for r, e in zip(res, exp)]) if exp else z3.BoolVal(True)
-                items = [("K3 pack_bitstring(%d bits) == LSB-first bytes, zero padded, length ceil(n/8)" % n, claim)]
-                if it.side:
-                    items.append(("K3 pack side conditions n=%d" % n, z3.And(*it.side)))
-                o, u, bad = _prove_all(p, items, [])
-                ok, unk = ok and o, unk or u
-                if bad and cex is None:
-                    cex = {"fn": "pack_bitstring", "bits": [z3.is_true(bad[1].eval(b, model_completion=True)) for b in bits]}
+                # (an implementation whose output length depends on the data cannot be merged into one term: one run per side)
+                for pc, res, it in pysym.run_function_paths(U.pack_bitstring, [list(bits)], "bv", W):
+                    if len(res) != len(exp):
+                        st, m = p.valid(z3.BoolVal(False), pc, "K3 pack_bitstring(%d bits): a path returning %d bytes instead of %d is infeasible" % (n, len(res), len(exp)))
+                        if st == "refuted":
+                            ok = False
+                            cex = cex or {"fn": "pack_bitstring", "bits": [z3.is_true(m.eval(b, model_completion=True)) for b in bits]}
+                        elif st != "proved":
+                            ok, unk = False, True
+                        continue
+                    claim = z3.And(*[(r if pysym.is_z(r) else z3.BitVecVal(r, W)) == e for r, e in zip(res, exp)]) if exp else z3.BoolVal(True)
+                    items = [("K3 pack_bitstring(%d bits) == LSB-first bytes, zero padded, length ceil(n/8)" % n, claim)]
+                    if it.side:
+                        items.append(("K3 pack side conditions n=%d" % n, z3.And(*it.side)))
+                    o, u, bad = _prove_all(p, items, pc)
+                    ok, unk = ok and o, unk or u
+                    if bad and cex is None:
+                        cex = {"fn": "pack_bitstring", "bits": [z3.is_true(bad[1].eval(b, model_completion=True)) for b in bits]}
             for nb in sorted(set((n + 7) // 8 for n in lengths if n <= 64)):
                 bs = [_bv("d%d" % i, 0xFF) for i in range(nb)]
                 res, it = pysym.run_function(U.unpack_bitstring, [SBytes([b for b, _ in bs])], "bv", W,
